@@ -99,7 +99,35 @@ def cases(draw):
             "dblock": [draw(st.sampled_from([1, 2, 4, 8])) for _ in range(3)],
             "dst_spelling": draw(st.sampled_from(
                 ["plain", "plain", "dotdot", "symlink", "symlink_dotdot"])),
+            # command line, or the library function called by a program that
+            # has converted another (sharded) dataset just before, with the
+            # same options object - or with none at all when the defaults
+            # apply
+            "via": draw(st.sampled_from(["cli", "cli", "api"])),
             "seed": draw(st.integers(0, 2 ** 31))}
+
+
+def earlier_conversion(root, opts):
+    """A program that converts several datasets in a row: a tiny sharded
+    dataset is converted with --copy-info semantics first, with the same
+    options object (none when the defaults apply)."""
+    from neuroglancer_scripts.scripts import convert_chunks
+    info = ds.make_info("uint8", 1, [ds.make_scale(
+        "w0", [2, 2, 2], [2, 2, 2], "raw",
+        sharding=ds.sharding_dict(0, 1, 0, "raw", "raw"))])
+    src = os.path.join(root, "warm_src")
+    pio = ds.new_dataset(info, {"type": "sharded", "strategy": "in memory"},
+                         src)
+    ds.write_scale(pio, info["scales"][0],
+                   np.arange(8, dtype=np.uint8).reshape(1, 2, 2, 2))
+    ds.close_accessor(pio)
+    with ds.captured_atexit():
+        if opts is None:
+            convert_chunks.convert_chunks(src, os.path.join(root, "warm_dst"),
+                                          copy_info=True)
+        else:
+            convert_chunks.convert_chunks(src, os.path.join(root, "warm_dst"),
+                                          copy_info=True, options=opts)
 
 
 def build_info(case, side):
@@ -153,6 +181,10 @@ def source_arrays(case):
                     {"channels": case["channels"], "size": [X, Y, Z],
                      "block": case.get("dblock", case["block"])},
                     dt.newbyteorder("<"), rng).astype(dt)
+            elif case["seed"] % 5 == 4:
+                # regular structure: blocks (also border blocks of different
+                # shapes) with byte-identical voxel sequences
+                a = ds.regular_labels(shape, dt, rng, None)
             elif case["seed"] % 3 == 0:
                 # piecewise constant labels (uniform 2x2x2 regions, as real
                 # segmentations have): whole blocks hold a single label
@@ -239,8 +271,30 @@ def check_case(ctx, case):
                 w = np.full((1, 3, 2, 3), 7, dtype="<u4")
                 e.decode(bytes(e.encode(w)), (3, 2, 3))
         try:
-            with ds.captured_atexit(), np.errstate(all="ignore"):
-                rc = convert_chunks.main(argv)
+            if case.get("via") == "api":
+                opts = {}
+                if "--flat" in argv:
+                    opts["flat"] = True
+                if "--no-gzip" in argv:
+                    opts["gzip"] = False
+                opts = opts or None
+                before_opts = None if opts is None else dict(opts)
+                earlier_conversion(root, opts)
+                with ds.captured_atexit(), np.errstate(all="ignore"):
+                    if opts is None:
+                        convert_chunks.convert_chunks(
+                            src_url, ddir_arg, copy_info=dk == "copy_info")
+                    else:
+                        convert_chunks.convert_chunks(
+                            src_url, ddir_arg, copy_info=dk == "copy_info",
+                            options=opts)
+                rc = 0
+                if opts != before_opts:
+                    # not a violation by itself: the voxels decide
+                    ctx.count("callers_options_changed")
+            else:
+                with ds.captured_atexit(), np.errstate(all="ignore"):
+                    rc = convert_chunks.main(argv)
         except SystemExit as exc:
             ctx.fail("convert-chunks exited with %r (%s)" % (exc.code,
                                                              describe(case)))
@@ -344,6 +398,7 @@ def run(ctx, n):
                          else "dst_shards<=32")
         ctx.record(case, len(case["scales"]) >= 2 or change, extra + [
             "src." + case["src_kind"], "dst." + case["dst_kind"],
+            "via." + case.get("via", "cli"),
             "%s->%s" % (case["src_enc"][:3], case["dst_enc"][:3]),
             "%s->%s" % (case["src_dtype"], case["dst_dtype"])])
     ctx.run_hypothesis(cases(), check, n)
